@@ -497,7 +497,7 @@ class Checker:
             "field": {}, "x0kind": {}, "colnorm": {}, "stop": {}, "spec": {}, "tol": {}, "knife_edge": 0, "via_inv": 0, "oracle_checked": 0,
             "oracle_skipped": 0, "scale_checked": 0, "zero_cols": 0, "branches": {}, "worst_x": 0.0, "worst_oracle": 0.0,
             "worst_x_ratio": 0.0, "worst_oracle_ratio": 0.0, "iter_compared": 0, "iter_loose": 0, "samples": [],
-            "exact_checked": 0, "exact_model_checked": 0, "exact_undecidable": 0, "exact_kx": {}, "worst_exact": 0.0,
+            "stop_kept_by_degenerate_col": 0, "exact_checked": 0, "exact_model_checked": 0, "exact_undecidable": 0, "exact_kx": {}, "worst_exact": 0.0,
             "worst_exact_ratio": 0.0, "worst_exact_model_ratio": 0.0, "exact_by_kappa": {}, "large_cases": 0, "long_runs": 0,
         }
 
@@ -565,35 +565,99 @@ class Checker:
         # before the cap every non-zero column has |b - A x| <= tol * |b - A x0| + tol * |b| (= tol_abs below), and
         # before each step some column was strictly above; the link recurrence residual = true residual is
         # C12_residual_true_any (hypothesis b_j != 0 only).
-        # A zero column with x0 != 0 has no meaningful relative tolerance (|b| = 0): the code iterates on
-        # (0, x0) without normalisation and returns 0; such cases are left out of this clause.
-        degenerate = any(mult[j] == 0 and np.any(X0[:, j] != 0) for j in range(m))
+        # PER COLUMN (round 4; formerly one degenerate column switched the two clauses off for the whole batch).
+        # A zero column with x0 != 0 ("degenerate", |b| = 0: no relative tolerance) is iterated by the code on the
+        # un-normalised system (0, x0) with its own tolerance tol * |A x0| + tol and its output is multiplied by |b| = 0,
+        # so its internal residual cannot be read off the returned X.  It enters the SHARED stop test, though.  Exactly:
+        #  * "stops-not-before" needs no exception at all: at an exit before the cap EVERY column was below its
+        #    tolerance, so a live column above its tolerance is a violation whatever the other columns are;
+        #  * "stops-as-soon-as" (all live columns below, yet the loop went on) is explained by a degenerate column only
+        #    if THAT column is not yet clearly below ITS tolerance after k steps.  Its internal residual after k steps is
+        #    OBSERVED on the real code, not on this batch's output: the column is run ALONE with tol = 0 (the tolerance only
+        #    enters the stop test, so the trajectory is the same; the columns of a batch are computed independently) and
+        #    max_iters = k; info['errors'][-1] is then the tracked residual |r_k| of that column (scale 1).  An exact-
+        #    arithmetic reference (Krylov optimum) is NOT used: at kappa ~ 1e4 and k ~ n floating-point CG lags behind it.
+        deg_cols = [j for j in range(m) if mult[j] == 0 and np.any(X0[:, j] != 0)]
         slack = 200 * np.finfo(float).eps * kap * n
         live = [j for j in range(m) if mult[j] > 0]
-        if live and not degenerate:
+        deg_cache = {}
+
+        def deg_internal_res(j, k):
+            """|r_k| of the degenerate column j as the real code tracks it when the column is run alone (None: not observable)"""
+            if (j, k) not in deg_cache:
+                if k == 0:
+                    val = float(r0n[j])
+                else:
+                    rj = R.run(k, B=R.B[:, [j]].copy(), X0=X0[:, [j]].copy(), tol=0.0)
+                    sj = rj["iterations"] - 1
+                    if sj == k and len(rj["errors"]) == k:
+                        val = float(rj["errors"][-1])
+                    elif sj < k and len(rj["errors"]) == sj:
+                        val = 0.0            # tol = 0 and the loop stopped: the residual is exactly zero
+                    else:
+                        val = None
+                deg_cache[(j, k)] = val
+            return deg_cache[(j, k)]
+
+        def degenerate_keeps_running(k):
+            for j in deg_cols:
+                res = deg_internal_res(j, k)
+                tol_int = c["tol"] * r0n[j] + c["tol"]          # the code's tolerance for this column (scale = 1)
+                if res is None or not (res < tol_int * (1 - 1e-3) - slack * (1.0 + r0n[j])):
+                    return j
+            return None
+
+        if live:
             for k, rk in enumerate(sweep):
                 s = rk["iterations"] - 1
                 if s != k:
                     continue
                 true_res = np.array([np.linalg.norm(R.B[:, j] - A @ rk["X"][:, j]) for j in range(m)])
                 below = all(true_res[j] < tol_abs[j] * (1 - 1e-3) - slack * (mult[j] + r0n[j]) for j in live)
-                above = any(true_res[j] > tol_abs[j] * (1 + 1e-3) + slack * (mult[j] + r0n[j]) for j in live)
+                above = [j for j in live if true_res[j] > tol_abs[j] * (1 + 1e-3) + slack * (mult[j] + r0n[j])]
                 if k < final_steps and below:
-                    bad.append({"clause": "stops-as-soon-as", "step": k, "detail": "all columns below their tolerance but the iteration went on"})
+                    dj = degenerate_keeps_running(k)
+                    if dj is None:
+                        bad.append({"clause": "stops-as-soon-as", "step": k, "detail": "all columns below their tolerance (degenerate zero "
+                                    "columns: by their own run of the real code with tol = 0) but the iteration went on"})
+                    else:
+                        self.stats["stop_kept_by_degenerate_col"] += 1
                 if k == final_steps and k < K and above:
-                    bad.append({"clause": "stops-not-before", "step": k, "detail": "a column is above its tolerance but the iteration stopped before max_iters"})
+                    bad.append({"clause": "stops-not-before", "step": k, "columns": above,
+                                "detail": "a column is above its tolerance but the iteration stopped before max_iters"})
         # "reports the residual history": entry i of errors is the tracked residual after step i + 2 (the
         # last one after the final step), i.e. mean_j |b_j - A x_j| / |b_j| up to rounding of the recurrence
-        if live and not degenerate and len(live) == m:
+        # PER COLUMN (round 4; formerly skipped unless every column was live): a live column contributes
+        # |b_j - A x_j| / |b_j| (from the returned X), a zero column with x0 = 0 contributes exactly 0 (r = 0 throughout),
+        # a degenerate column (b = 0, x0 != 0; scale 1) contributes its tracked |r_k| observed by running it alone (deg_internal_res).
+        if live:
             for k, rk in enumerate(sweep):
                 s = rk["iterations"] - 1
                 if s != k or s < 1 or len(rk["errors"]) != s:
                     continue
-                true_mean = float(np.mean([np.linalg.norm(R.B[:, j] - A @ rk["X"][:, j]) / mult[j] for j in range(m)]))
+                contrib, scales = [], []
+                for j in range(m):
+                    if mult[j] > 0:
+                        contrib.append(np.linalg.norm(R.B[:, j] - A @ rk["X"][:, j]) / mult[j])
+                        scales.append((mult[j] + r0n[j]) / mult[j])
+                    elif j in deg_cols:
+                        res = deg_internal_res(j, k)
+                        if res is None:
+                            contrib = None
+                            break
+                        contrib.append(res)
+                        scales.append(1.0 + r0n[j])
+                    else:
+                        contrib.append(0.0)
+                        scales.append(0.0)
+                if contrib is None:
+                    continue
+                true_mean = float(np.mean(contrib))
                 rep = float(rk["errors"][-1])
-                scale_h = float(np.mean((mult + r0n) / mult))
+                scale_h = float(np.mean(scales))
                 if abs(rep - true_mean) > 1e-3 * max(rep, true_mean) + 1e4 * slack * scale_h:
-                    bad.append({"clause": "history", "step": k, "reported": rep, "true_mean_relative_residual": true_mean})
+                    bad.append({"clause": "history", "step": k, "reported": rep, "true_mean_relative_residual": true_mean,
+                                "degenerate_columns_observed_alone": deg_cols})
                     break
         # Krylov optimum
         if kap <= 1e4:
@@ -836,8 +900,9 @@ class Checker:
         X0 = np.zeros_like(R.B) if R.X0 is None else R.X0
         mult = np.linalg.norm(R.B, axis=0)
         live = [j for j in range(m) if mult[j] > 0]
-        degenerate = any(mult[j] == 0 and np.any(X0[:, j] != 0) for j in range(m))
-        if live and not degenerate and s < cap:
+        # per column: at an exit before the cap EVERY column was below its tolerance, so a live column above its tolerance is a
+        # violation whatever the other (zero / degenerate) columns are - no batch-level exception
+        if live and s < cap:
             kap = c["kappa"] * c.get("kappaP", 1.0)
             r0n = np.array([np.linalg.norm(R.B[:, j] - A @ X0[:, j]) for j in range(m)])
             tol_abs = c["tol"] * (mult + r0n)
@@ -1020,7 +1085,7 @@ def run(ctx):
         "worst_relative_iterate_deviation": st["worst_x"], "worst_iterate_deviation_over_allowed": st["worst_x_ratio"],
         "worst_oracle_anorm_deviation": st["worst_oracle"], "worst_oracle_deviation_over_allowed": float(st["worst_oracle_ratio"]),
         "oracle_checked": st["oracle_checked"], "oracle_skipped_cases": st["oracle_skipped"], "scale_checked": st["scale_checked"],
-        "zero_columns": st["zero_cols"], "via_inv": st["via_inv"],
+        "zero_columns": st["zero_cols"], "stop_kept_running_by_degenerate_column_observed_alone": st["stop_kept_by_degenerate_col"], "via_inv": st["via_inv"],
         "dist_n": st["n"], "dist_kappa": st["kappa"], "dist_steps_k": st["k"], "dist_columns": st["columns"],
         "dist_preconditioner": st["pkind"], "dist_field": st["field"], "dist_x0": st["x0kind"], "dist_spectrum": st["spec"],
         "dist_tol": st["tol"], "dist_column_norm": st["colnorm"], "stop_reasons": st["stop"], "model_branches_hit": st["branches"],
